@@ -581,7 +581,18 @@ func (x *Exec) verifyInlineLit(lit *ast.FuncLit, st *State, params, results []st
 func (x *Exec) checkFrame(c *Contract, o *State) {
 	save := x.saveContractCtx()
 	defer x.restoreContractCtx(save)
-	targets := x.modTargets(c, o)
+	// the objects the clause names are those of the entry state
+	ent := o
+	if o.old != nil {
+		ent = o.old.clone()
+		for _, pn := range c.Params {
+			if v, ok := o.names[pn]; ok {
+				ent.names[pn] = v
+				ent.names["$type:"+pn] = o.names["$type:"+pn]
+			}
+		}
+	}
+	targets := x.modTargets(c, ent)
 	keys := make([]string, 0, len(o.heap))
 	for k := range o.heap {
 		keys = append(keys, k)
